@@ -415,6 +415,9 @@ SKIP_STMT = [
     ['\tpushv s,other'], ['\tpopv s,other'], ['other\tset 9'], ['sym\tfunction x,x+1'], ['\trept 2', '\tdb 8', '\tendm'],
     ['\tirp q,1,2', '\tdb q', '\tendm'], ['\tnosuchinstruction'], ['\tdb 300'], ['\tdb undefinedsym'], ['\tend'], ['\trelaxed on'],
     ['\tread sym'], ['\texitm'], ['\tshift'], ['\tendm'], ['\tendsection'], ['\tendstruct'], ['\tdephase'],
+    # macro definitions: exported ones go to the -M file, headers are checked when a macro is defined
+    ['xm\tmacro {export}', '\tdb 5', '\tendm'], ['xm\tmacro {nosuchoption}', '\tendm'], ['xm\tmacro a,1x', '\tendm'], ['1x\tmacro', '\tendm'],
+    ['xm\tmacro {export}', 'ym\tmacro {export}', '\tendm', '\tendm'], ['xm\tmacro {expand},{noexpand}', '\tendm'],
 ]
 SKIP_TAIL = ['\tifdef sym', '\tdb 1', '\telse', '\tdb 2', '\tendif', '\tdb MOMCPU&255', '\tdb \'a\'', '\tdb 10', '\tdb other', 'here:\tdw here',
              '\tmac', '\tdb (5+3)*2']
@@ -440,13 +443,13 @@ def eval_skip(case):
         core.fresh()
         core.put('def.inc', 'sym\tequ 7\n')
         core.put('a.asm', '\n'.join(SKIP_HEAD + body + SKIP_TAIL) + '\n')
-        o = core.run('asl', ['-q', 'a.asm'])
+        o = core.run('asl', ['-q', '-M', 'a.asm'])
         ck = core.crashkind(o)
         if ck:
             return core.R(False, ck, 'skip/crash/' + ck, '%s on skipped %s in %s' % (ck, st, ctx), transitions=2)
-        res.append((o.rc, core.get('a.p'), len((o.out + o.err).strip().split(b'\n')) if (o.out + o.err).strip() else 0))
+        res.append((o.rc, core.get('a.p'), len((o.out + o.err).strip().split(b'\n')) if (o.out + o.err).strip() else 0, core.get('a.mac')))
     if res[0] != res[1] or res[1][0] != 0:
-        what = 'rc' if res[0][0] != res[1][0] else 'code' if res[0][1] != res[1][1] else 'diagnostics'
+        what = 'rc' if res[0][0] != res[1][0] else 'code' if res[0][1] != res[1][1] else 'diagnostics' if res[0][2] != res[1][2] else 'exported-macros'
         return core.R(False, 'skip-effect', 'skip/effect/%s/%s' % (what, st[0].strip().replace('\t', ' ')[:24]),
                       'statement %s in the non-selected branch of %s changes the result (%s): with rc=%s, without rc=%s' % (st, ctx, what, res[0][0], res[1][0]), transitions=2)
     return core.R(True, 'skip-no-effect', states=['skip:%d:%d' % (case['ctx'], case['stmt'])], transitions=2)
